@@ -12,6 +12,7 @@
   Import-free (core only).
 -/
 import Nervus.Model.Value
+import Nervus.Model.Generated.Comparators
 namespace Nervus
 open Value
 
@@ -67,7 +68,9 @@ section
 variable (E : Env)
 
 /-- mirrors `compare_strings_with_temporal` (evaluator_compare.rs): two strings that parse as temporal
-    values of the SAME kind are compared as such, every other pair as text. -/
+    values of the SAME kind are compared as such, every other pair as text.  The temporal parse is attempted for
+    EVERY pair: `Generated.stringCompareAlwaysParses` (table `Comparators`, regenerated; its recogniser fails when
+    anything precedes the parse or when `order_compare_non_null` / `compare_values` stop handing strings to it). -/
 def strCmp (l r : Str) : Ordering :=
   match E.temporalKey l, E.temporalKey r with
   | some (k, a), some (k', b) => if k = k' then TKey.cmp a b else cmpBytes l r
